@@ -11,9 +11,9 @@ Tys == [j \in 1..Len(In.types) |-> Ty(In.types[j].base, In.types[j].mods)]
 Vals == In.values
 Res == ndJsonDeserialize(IOEnv.OBS)
 N == Len(Tys)
-VARIABLE i
-Init == i = 0
-Next == i = 0 /\ i' \in 1..N
+VARIABLES i, ph
+Init == i \in 1..N /\ ph = 0
+Next == ph = 0 /\ ph' = 1 /\ i' = i
 Bool(x) == x \in BOOLEAN
 JTy(t) == Ty(t.base, t.mods)
 BadInter(k) == {j \in 1..N : "t" \in DOMAIN Res[k].inter[j] \/ JTy(Res[k].inter[j]) # Intersect(Tys[k], Tys[j])}
@@ -21,7 +21,7 @@ BadSub(k) == {j \in 1..N : ~Bool(Res[k].sub[j]) \/ Res[k].sub[j] # ScalarSubtype
 BadEq(k) == {j \in 1..N : ~Bool(Res[k].eqIgn[j]) \/ Res[k].eqIgn[j] # EqIgnoringNull(Tys[k], Tys[j])}
 BadFits(k) == {v \in 1..Len(Vals) : ~Bool(Res[k].fits[v]) \/ Res[k].fits[v] # Fits(Vals[v], Tys[k])}
 Say(k, cls, d) == PrintT(<<"VERDICT", k, cls, d>>)
-Judged == i = 0 \/
+Judged == ph = 0 \/
   LET a == Tys[i] r == Res[i] IN
   IF "t" \in DOMAIN r THEN Say(i, "C17.panic", ToJson(r))
   ELSE
